@@ -83,6 +83,18 @@ CHECKS["C19"] = {
     "assumptions": ["one clock for all parties", _SAMPLING],
 }
 
+CHECKS["C05"] = {
+    "level": "exploration",
+    "technique": _TECH + ": real server.Server with a generated per-command policy zoo and a mutable authorizer; real clients drive command histories; handler-invocation monitor against harness-owned ground truth",
+    "level_text": "Seeded exploration of histories plus an enumerated cube: a real server.Server (Serve on a simulated listener, ServeConn, dispatch loop) is given 5 authenticated commands whose authentication / encryption / integrity levels and permission lists are drawn per run (SecurityConfigForCommand), one raw command, and an authorizer table (or none) that the scenario re-draws between connections and while a connection is kept alive. Real clients (drawn own levels; with or without a common cipher, i.e. keyed or keyless sessions) run up to 4 connections of first command + up to 3 kept-alive follow-on command integers, reconnect and resume cached sessions under other commands, send authenticated commands on the raw path, the raw and unknown commands through the handshake, and unknown follow-ons. Every handler is wrapped by a monitor that at invocation time checks: authenticated handlers only via the handshake path and raw ones only raw; policy(cmd).authentication REQUIRED => the session was really authenticated (recorded when the harness saw it established); encryption or integrity REQUIRED => the stream is really encrypting a keyed session; authorizer set => it currently accepts the session's identity at one of the command's levels. Requests that must be refused run no handler and the client sees the connection closed. The cube (first-command policy x follow-on policy x client kind) is swept exhaustively in thorough, one in four cells in quick.",
+    "level_note": "Ground truth for 'really authenticated/keyed' is what the real client reported for the session when it was established (the client's flags are themselves checked against the wire by C03). All sessions live in cedar's process-global server cache.",
+    "budget": {"quick": 25, "thorough": 900},
+    "rule": "a case is one generated server zoo plus client history (or one cube cell); distinct = distinct event-log hash; non-trivial = scheduler had a choice or a policy change fired.",
+    "real": _REAL_SEC + ["server.Server (Serve, ServeConn, sessionSatisfies, postAuthPolicy)"],
+    "stub": _SIM,
+    "assumptions": [_SAMPLING],
+}
+
 CHECKS["C06"] = {
     "level": "exploration",
     "technique": _TECH + ": scripted resumption requesters and a byte-for-byte replayer against the real server side across generated session lifetimes in virtual time; reference key/identity/expiry model and reference codec on the wire",
